@@ -85,7 +85,7 @@ impl Property for C18 {
     }
     fn families(&self, ctx: &Ctx) -> Vec<Family> {
         vec![
-            Family::new("sem-programs", ctx.tier.pick(500, 30000), |_c, rng, emit| {
+            Family::new("sem-programs", ctx.tier.pick(500, 80000), |_c, rng, emit| {
                 for _ in 0..50 {
                     if !emit(sem_case(rng, false)) {
                         return;
